@@ -19,6 +19,7 @@ func init() {
 		Assumptions: []string{"sync.WaitGroup semantics; a buffered channel of capacity n accepts n sends without a receiver"},
 		Run:         runC17,
 		Controls: []Control{
+			{Name: "fast-loop-variable-hoisted", File: "pkg/group/exec.go", Old: "\tvar firstErrResponse *memberResponse\n\tfor response := range executeEach(cancelCtx, members) {", New: "\tvar firstErrResponse *memberResponse\n\tvar response memberResponse\n\tfor response = range executeEach(cancelCtx, members) {", Expect: "R17.5"},
 			{Name: "drain-deferred-after-cancel", File: "pkg/group/exec.go", Old: "func ExecuteRace(ctx context.Context, members []Member) (proto.Message, int, error) {\n\tcancelCtx, cancelFunc := context.WithCancel(ctx)\n\tdefer cancelFunc()\n", New: "func ExecuteRace(ctx context.Context, members []Member) (proto.Message, int, error) {\n\tcancelCtx, cancelFunc := context.WithCancel(ctx)\n\tdefer cancelFunc()\n\tdrainCh := make(chan memberResponse)\n\tclose(drainCh)\n\tdefer func() {\n\t\tfor range drainCh {\n\t\t}\n\t}()\n", Expect: "R17.8"},
 			{Name: "most-as-any", File: "pkg/group/exec.go", Old: "\tcase ExecutionStrategyMost:\n\t\treturn ExecuteMost(ctx, members)", New: "\tcase ExecutionStrategyMost:\n\t\treturn ExecuteAny(ctx, members)", Expect: "R17.1"},
 			{Name: "threshold-geq", File: "pkg/group/exec.go", Old: "\tif errCount > allowedErrors {\n\t\treturn results, firstError\n\t}", New: "\tif errCount >= allowedErrors {\n\t\treturn results, firstError\n\t}", Expect: "R17.4"},
@@ -696,6 +697,33 @@ func r175(c *an.Ctx) {
 				if isFieldLoad(r.Results[2], "err") && isFieldLoad(r.Results[1], "i") {
 					okAfter = true
 				}
+			}
+			// the response that is kept by pointer is the variable of ONE iteration: a variable declared outside the loop
+			// and assigned by it is overwritten by every later response, so the pointer ends up at the last one
+			sharedVar := ""
+			an.Instrs(fn, func(in ssa.Instruction) {
+				ph, ok := in.(*ssa.Phi)
+				if !ok || !strings.Contains(ph.Type().String(), "memberResponse") {
+					return
+				}
+				for _, e := range ph.Edges {
+					al, isAl := e.(*ssa.Alloc)
+					if !isAl {
+						continue
+					}
+					// allocated once, outside the loop, and stored to inside it
+					if !loop.Dominates(al.Block()) || al.Block() == loop {
+						for _, st := range an.StoresTo(&an.Cell{Alloc: al}) {
+							if loop.Dominates(st.Block()) && st.Block() != loop || st.Block() == loop {
+								sharedVar = al.Comment
+							}
+						}
+					}
+				}
+			})
+			if sharedVar != "" {
+				c.Bad(rule, name+"|all failed: the first failing response's error and index", fn.Pos(),
+					"the first failing response is remembered as a pointer to `"+sharedVar+"`, a variable that lives across iterations and is overwritten by every later response: when every member fails ExecuteFast returns the LAST error observed and its index")
 			}
 			// first kept: assignment guarded by firstErrResponse == nil
 			kept := false
